@@ -25,6 +25,7 @@ type HarnessSpec struct {
 	Reach      []string // labels that must be reached on at least one path
 	Native     bool     // harness can be replayed natively (no Run/TLS stubs)
 	Tweak      func(c *HarnessCfg, tier string)
+	DeadOK     map[string]bool // vLen alternatives ("name=value") that by design never complete
 	PanicOK    bool // panics escaping the harness are not violations (harness handles them)
 	Bound      string
 	// PO runs partial-order queries on a completed path's trace and returns findings (key, detail, witness order)
@@ -288,6 +289,43 @@ func cmdCheck(args []string) int {
 			}
 		}
 		incomplete := outcomes["unsupported"]+outcomes["engine-error"]+outcomes["budget"]+outcomes["cut"] > 0
+		// vacuity per alternative: every value of every vLen choice must lie on some path that
+		// runs to the end of the harness (an assumption that silently removes one alternative
+		// would otherwise pass everything about it)
+		{
+			alive := map[string]map[int]bool{}
+			dom := map[string]int{}
+			for _, p := range res.Paths {
+				for name, vm := range p.Choices {
+					if vm[1] > dom[name] {
+						dom[name] = vm[1]
+					}
+					if alive[name] == nil {
+						alive[name] = map[int]bool{}
+					}
+					if p.Outcome == "return" || p.Outcome == "done" {
+						alive[name][vm[0]] = true
+					}
+				}
+			}
+			var names []string
+			for n := range dom {
+				names = append(names, n)
+			}
+			sort.Strings(names)
+			for _, n := range names {
+				for v := 0; v <= dom[n]; v++ {
+					if !alive[n][v] && !h.DeadOK[fmt.Sprintf("%s=%d", n, v)] {
+						if incomplete {
+							rep.Lines = append(rep.Lines, fmt.Sprintf("INCONCLUSIVE: property=%s %s: alternative %s=%d never runs to the end of the harness, but some paths left the supported fragment", id, h.Name, n, v))
+						} else {
+							rep.Violations = append(rep.Violations, &ViolationReport{Key: fmt.Sprintf("%s:vacuity:choice %s=%d", h.Name, n, v), Harness: h.Name,
+								Detail: fmt.Sprintf("alternative %s=%d never runs to the end of the harness: everything asserted about it holds vacuously", n, v), Confirmed: "symbolic-trace"})
+						}
+					}
+				}
+			}
+		}
 		for _, r := range h.Reach {
 			if reach[r] == 0 && incomplete {
 				rep.Lines = append(rep.Lines, fmt.Sprintf("INCONCLUSIVE: property=%s %s: reachability witness '%s' not reached, but some paths left the supported fragment (no verdict)", id, h.Name, r))
